@@ -82,18 +82,36 @@ impl Model {
 }
 
 fn gen_garbage(t: &mut Tape) -> Vec<u8> {
-    let n = 1 + t.below(6) as usize;
-    t.fill(n)
-        .into_iter()
-        .map(|b| {
-            if [rc::SD1, rc::SD2, rc::SD3, rc::SD4, rc::SC].contains(&b) {
-                b ^ 0x01
-            } else {
-                b
+    let nd = |b: u8| if [rc::SD1, rc::SD2, rc::SD3, rc::SD4, rc::SC].contains(&b) { b ^ 0x01 } else { b };
+    match t.weighted(&[3, 2, 2]) {
+        // bytes that start no telegram
+        0 => {
+            let n = 1 + t.below(6) as usize;
+            t.fill(n).into_iter().map(nd).collect()
+        }
+        // rubble: a byte that starts no telegram, followed by bytes that on their own would be valid
+        // telegrams - the whole chunk is undecodable and vanishes as a whole
+        1 => {
+            let mut out = vec![nd(t.u8())];
+            for _ in 0..(1 + t.below(2)) {
+                out.extend(gen_valid_frame(t));
             }
-        })
-        .map(|b| if b == 0x11 || b == 0x69 || b == 0xA3 || b == 0xDD || b == 0xE4 { b } else { b })
-        .collect()
+            out
+        }
+        // a damaged telegram (one flipped bit) that the reference decoder rejects as a whole
+        _ => {
+            let mut f = gen_valid_frame(t);
+            let bit = t.below(8 * f.len() as u64) as usize;
+            f[bit / 8] ^= 1 << (bit % 8);
+            if t.bool() {
+                f.extend(gen_valid_frame(t));
+            }
+            match rc::decode(&f) {
+                RefVerdict::Reject => f,
+                _ => vec![nd(f[0]) ^ 0x02, 0xDC, 0x01, 0x02],
+            }
+        }
+    }
 }
 
 fn chunks_case(t: &mut Tape, obs: &mut Obs) -> CaseResult {
@@ -110,10 +128,18 @@ fn chunks_case(t: &mut Tape, obs: &mut Obs) -> CaseResult {
     let mut delivered: Vec<usize> = vec![];
     let mut partial_behind = 0u64;
     let mut multi = 0u64;
+    let mut mid_arrivals = 0u64;
 
     // one poll of either helper, compared against the model
-    let poll = |mode: u64, phy: &mut ChunkPhy, model: &mut Model, delivered: &mut Vec<usize>, partial_behind: &mut u64, multi: &mut u64| -> CaseResult {
+    // `arrival`: (k, n) - n further bytes of the segment being delivered arrive right before the k-th
+    // receive_data call of this invocation (already scheduled in the PHY)
+    let poll = |mode: u64, arrival: Option<(usize, usize)>, phy: &mut ChunkPhy, model: &mut Model, delivered: &mut Vec<usize>, partial_behind: &mut u64, multi: &mut u64| -> CaseResult {
         let before = model.len();
+        phy.calls = 0;
+        phy.counting = false;
+        if std::env::var("PBVERIF_DUMP").is_ok() {
+            eprintln!("poll mode {mode} arrival {arrival:?} phy.buf {:02x?} phy.arrival {:?} model {:?}", phy.buf, phy.arrival, model.buf.iter().map(|s| (s.id, s.garbage, s.arrived, s.bytes.len())).collect::<Vec<_>>());
+        }
         ensure!(phy.poll_pending_received_bytes(now) == before, "pending", "poll_pending_received_bytes {} but {} bytes are buffered", phy.poll_pending_received_bytes(now), before);
         if mode == 0 {
             let got = phy.receive_telegram(now, |tel| to_ref(&tel));
@@ -128,14 +154,23 @@ fn chunks_case(t: &mut Tape, obs: &mut Obs) -> CaseResult {
             }
         } else {
             let mut calls: Vec<(RefFrame, bool)> = vec![];
+            phy.counting = true;
             let ret = phy.receive_all_telegrams(now, |tel, is_last| {
                 calls.push((to_ref(&tel), is_last));
                 calls.len()
             });
+            phy.counting = false;
             // reference behaviour
             let mut want: Vec<(Seg, bool)> = vec![];
             let mut want_ret = None;
+            let mut call = 0;
             loop {
+                if let Some((k, n)) = arrival {
+                    if k == call {
+                        model.buf.back_mut().unwrap().arrived += n;
+                    }
+                }
+                call += 1;
                 let Some(head) = model.buf.front().cloned() else { break };
                 if head.garbage {
                     model.drop_all();
@@ -165,6 +200,15 @@ fn chunks_case(t: &mut Tape, obs: &mut Obs) -> CaseResult {
             if calls.len() > 1 {
                 *multi += 1;
             }
+            // an arrival scheduled for a call that was not made any more happens now
+            if let Some((k, n)) = arrival {
+                if k >= call {
+                    let (_, bytes) = phy.arrival.take().expect("arrival still scheduled");
+                    phy.buf.extend_from_slice(&bytes);
+                    model.buf.back_mut().unwrap().arrived += n;
+                }
+            }
+            ensure!(phy.arrival.is_none(), "calls", "receive_all_telegrams made more receive_data calls than the reference reassembler ({})", call);
         }
         ensure!(phy.poll_pending_received_bytes(now) == model.len(), "pending", "after the poll {} bytes are pending but the reference expects {}", phy.poll_pending_received_bytes(now), model.len());
         Ok(())
@@ -186,28 +230,37 @@ fn chunks_case(t: &mut Tape, obs: &mut Obs) -> CaseResult {
         cuts.dedup();
         let mut pos = 0;
         for c in cuts {
+            let forced = seg.garbage || segs.get(si + 1).map(|s| s.garbage).unwrap_or(false) && c == n;
+            if !forced && t.chance(1, 5) {
+                // these bytes arrive in the middle of one invocation of receive_all_telegrams
+                let k = t.below(3) as usize;
+                phy.arrival = Some((k, seg.bytes[pos..c].to_vec()));
+                mid_arrivals += 1;
+                poll(1, Some((k, c - pos)), &mut phy, &mut model, &mut delivered, &mut partial_behind, &mut multi)?;
+                pos = c;
+                continue;
+            }
             phy.buf.extend_from_slice(&seg.bytes[pos..c]);
             model.buf.back_mut().unwrap().arrived = c;
             pos = c;
-            let forced = seg.garbage || segs.get(si + 1).map(|s| s.garbage).unwrap_or(false) && c == n;
             if forced {
                 // drain completely so that a discard can never cut a later valid telegram
                 let mut guard = 0;
                 while model.len() > 0 {
-                    poll(1, &mut phy, &mut model, &mut delivered, &mut partial_behind, &mut multi)?;
+                    poll(1, None, &mut phy, &mut model, &mut delivered, &mut partial_behind, &mut multi)?;
                     guard += 1;
                     ensure!(guard < 20, "drain", "buffer does not drain");
                 }
             } else if t.chance(2, 3) {
                 let mode = t.below(2);
-                poll(mode, &mut phy, &mut model, &mut delivered, &mut partial_behind, &mut multi)?;
+                poll(mode, None, &mut phy, &mut model, &mut delivered, &mut partial_behind, &mut multi)?;
             }
         }
     }
     // final polls until nothing is left
     for _ in 0..(2 * nseg + 2) {
         let mode = t.below(2);
-        poll(mode, &mut phy, &mut model, &mut delivered, &mut partial_behind, &mut multi)?;
+        poll(mode, None, &mut phy, &mut model, &mut delivered, &mut partial_behind, &mut multi)?;
     }
     let want: Vec<usize> = segs.iter().filter(|s| !s.garbage).map(|s| s.id).collect();
     ensure!(delivered == want, "sequence", "delivered segments {:?}, expected {:?}", delivered, want);
@@ -219,6 +272,9 @@ fn chunks_case(t: &mut Tape, obs: &mut Obs) -> CaseResult {
     }
     if multi > 0 {
         obs.label("several-in-one-poll");
+    }
+    if mid_arrivals > 0 {
+        obs.label("bytes-arrive-during-an-invocation");
     }
     obs.count("polls_with_partial_behind", partial_behind);
     if segs.len() >= 2 {
@@ -343,7 +399,7 @@ pub fn property() -> Property {
         id: "C16",
         rule: "cases: sequences of 1..8 valid telegrams (token, SC, SD1/SD2/SD3 of all lengths, optional undecodable garbage segments) delivered to a PHY in generated chunks with polls (receive_telegram / receive_all_telegrams / poll_pending_received_bytes) in between; compared with a reference reassembler that knows the segment boundaries. Run over an explicit-chunk PHY, the harness SimPhy (chunks arise from bus time) and the crate's SimulatorPhy. Non-trivial = at least two segments; distinct by the byte content of all segments.",
         assumptions: vec![
-            "garbage segments consist of non-delimiter bytes only and are followed by polls before the next telegram's first byte ('arrives separately')",
+            "garbage segments (bytes that start no telegram; such a byte followed by valid telegrams; a telegram with a flipped bit that the reference decoder rejects) arrive in one piece and are followed by polls before the next telegram's first byte ('arrives separately'); everything buffered at the decode error is expected to vanish (anchor: everything on error)",
             "the generic helper methods of the ProfibusPhy trait are exercised; hardware PHYs are not",
         ],
         subchecks: vec![
